@@ -161,7 +161,7 @@ func (obj *SparseInt8Vector) APPEND(w *SparseInt8Vector) *SparseInt8Vector {
   return r
 }
 func (obj *SparseInt8Vector) ToSparseInt8Matrix(n, m int) *SparseInt8Matrix {
-  if n*m != obj.n {
+  if n < 0 || m < 0 || n*m != obj.n {
     panic("Matrix dimension does not fit input vector!")
   }
   v := NullSparseInt8Vector(obj.n)
